@@ -567,6 +567,8 @@ def ev_subscript(self, e: ast.Subscript, st: State) -> Term:
         stp = self.ev(e.slice.step, st) if e.slice.step else NONE
         return self.do_subscript(base, None, (lo, hi, stp), st, e)
     idx = self.ev(e.slice, st)
+    if idx.op == "sliceobj":
+        return self.do_subscript(base, None, tuple(idx.args[:3]), st, e)
     return self.do_subscript(base, idx, None, st, e)
 
 
